@@ -127,8 +127,9 @@ def orbitIn (fuel : Nat) (ps : Pairs) (seg : Nat → Nat → V6) (a b : Nat) : R
 /-- `orbit2frame(x, ref_orbit)` for an orbit that a `JplPropagator(obj, frame of cen)` returned:
 `Center(x).add_link(ref_orbit.frame.center, ref_orbit.frame.orientation, ref_orbit)`.
 The new centre `x` hangs below `link`, the centre of the frame the orbit is expressed in when `as_frame` is
-called (`cen` as long as the orbit was not re-framed); its offset is `ref_orbit.propagate(date)`, i.e. the
-propagator of the orbit called again: body `obj` relative to `cen`. -/
+called (`cen` as long as the orbit was not re-framed) and remembers that frame (`offset_frame`); its offset is
+`ref_orbit.propagate(date)`, i.e. the propagator of the orbit called again — body `obj` relative to `cen` — expressed in
+the remembered frame. -/
 structure Att where
   x : Nat
   link : Nat
@@ -139,37 +140,61 @@ structure Att where
 def attFind (att : List Att) (u v : Nat) : Option Att :=
   att.find? (fun t => t.x == u && t.link == v)
 
-/-- one step of `Center.convert_to` when attached frames exist: `hasattr(self, direct)` first (a kernel link or
-an attached centre), then the reverse attribute with a minus sign -/
-def stepOffsetA (ps : Pairs) (att : List Att) (seg : Nat → Nat → V6) (a b : Nat) : Res :=
-  if ps.contains (b, a) then provide ps seg a
-  else match attFind att a b with
-    | some t => propagate ps seg t.obj t.cen
-    | none =>
-      if ps.contains (a, b) then negRes (provide ps seg b)
-      else match attFind att b a with
-        | some t => negRes (propagate ps seg t.obj t.cen)
-        | none => .noProvider
-
-def sumStepsA (ps : Pairs) (att : List Att) (seg : Nat → Nat → V6) : V6 → List Nat → Res
-  | acc, a :: b :: rest =>
-    match stepOffsetA ps att seg a b with
-    | .ok o => sumStepsA ps att seg (vadd acc o) (b :: rest)
-    | e => e
-  | acc, _ => .ok acc
-
 /-- `create_frames` followed by the `add_link` of every attached centre, in order of creation -/
 def linkHistA (ps : Pairs) (att : List Att) : List (Nat × Nat) := linkHist ps ++ att.map (fun t => (t.x, t.link))
 
-def centerToA (fuel : Nat) (ps : Pairs) (att : List Att) (seg : Nat → Nat → V6) (a b : Nat) : Res :=
+/-- the loop of `Center.convert_to`, the offset of one step being given as a function -/
+def sumWith (stepf : Nat → Nat → Res) : V6 → List Nat → Res
+  | acc, a :: b :: rest =>
+    match stepf a b with
+    | .ok o => sumWith stepf (vadd acc o) (b :: rest)
+    | e => e
+  | acc, _ => .ok acc
+
+/-- `Center.convert_to` over the graph of kernel links and attached centres, with a given step function -/
+def centerWith (fuel : Nat) (ps : Pairs) (att : List Att) (stepf : Nat → Nat → Res) (a b : Nat) : Res :=
   match build fuel (linkHistA ps att) with
   | none => .fuel
   | some g =>
     match path fuel g a b with
-    | .ok p => sumStepsA ps att seg vzero p
+    | .ok p => sumWith stepf vzero p
     | .unknown => .noRoute
     | .keyError => .keyError
     | .loop => .fuel
+
+/-- `Center._to_parent` of an attached centre: `res = ref_orbit.propagate(date)` — `obj` relative to `cen`, in the
+frame of the propagator — then `res.copy(form="cartesian", frame=self.offset_frame)`: expressed in the frame of the
+link, which is a frame conversion of its own (`convert`) unless the two frames coincide -/
+def attOffset (ps : Pairs) (seg : Nat → Nat → V6) (convert : Nat → Nat → Res) (t : Att) : Res :=
+  match propagate ps seg t.obj t.cen with
+  | .ok v =>
+    if t.cen = t.link then .ok v
+    else match convert t.cen t.link with
+      | .ok off => .ok (vadd v off)
+      | e => e
+  | e => e
+
+/-- one step of `Center.convert_to` when attached frames exist: `hasattr(self, direct)` first (a kernel link or
+an attached centre), then the reverse attribute with a minus sign.  The offset of an attached centre may itself need a
+frame conversion, through frames that existed before it: `d` bounds that nesting (the Python recursion ends because
+every centre only hangs below older ones). -/
+def stepOffsetD (fuel : Nat) (ps : Pairs) (att : List Att) (seg : Nat → Nat → V6) : Nat → Nat → Nat → Res
+  | 0, _, _ => .fuel
+  | d + 1, a, b =>
+    if ps.contains (b, a) then provide ps seg a
+    else match attFind att a b with
+      | some t => attOffset ps seg (centerWith fuel ps att (stepOffsetD fuel ps att seg d)) t
+      | none =>
+        if ps.contains (a, b) then negRes (provide ps seg b)
+        else match attFind att b a with
+          | some t => negRes (attOffset ps seg (centerWith fuel ps att (stepOffsetD fuel ps att seg d)) t)
+          | none => .noProvider
+
+def stepOffsetA (fuel : Nat) (ps : Pairs) (att : List Att) (seg : Nat → Nat → V6) (a b : Nat) : Res :=
+  stepOffsetD fuel ps att seg (att.length + 1) a b
+
+def centerToA (fuel : Nat) (ps : Pairs) (att : List Att) (seg : Nat → Nat → V6) (a b : Nat) : Res :=
+  centerWith fuel ps att (stepOffsetA fuel ps att seg) a b
 
 def hasFrameA (ps : Pairs) (att : List Att) (x : Nat) : Bool := hasFrame ps x || att.any (fun t => t.x == x)
 
@@ -219,6 +244,9 @@ inductive Op where
   | center (k a b : Nat)
   /-- `objs[i].as_frame(x)` -/
   | asFrame (i x : Nat)
+  /-- `objs[i].ephem(dates=…).as_frame(x)`: the Ephem holds what the propagator returns, in the propagator's frame,
+  whatever frame `objs[i]` is expressed in now; its offset at a node of the Ephem is the propagated state -/
+  | asFrameEph (i x : Nat)
 
 def emit (w : World) (k o c : Nat) : Res → World × Res
   | .ok v => ({ w with objs := w.objs ++ [⟨k, c, v, o, c⟩] }, .ok v)
@@ -262,6 +290,10 @@ def step (fuel : Nat) (ps : Pairs) (seg : Nat → Nat → Nat → V6) (w : World
     match w.objs[i]? with
     | none => none
     | some o => some ({ w with att := w.att ++ [⟨x, o.frame, o.obj, o.cen⟩] }, .ok o.vec)
+  | .asFrameEph i x =>
+    match w.objs[i]? with
+    | none => none
+    | some o => some ({ w with att := w.att ++ [⟨x, o.cen, o.obj, o.cen⟩] }, .ok o.vec)
 
 /-- a whole history: the answers in order -/
 def run (fuel : Nat) (ps : Pairs) (seg : Nat → Nat → Nat → V6) : World → List Op → Option (World × List Res)
